@@ -114,3 +114,56 @@ def by_variant(sem, ty, enum, depth=0):
 
 def payload(enum, variant, key=0):
     return "%s::%s#%s" % (enum, variant, key)
+
+
+# ---- K6 census: the macro front end only ever *appends* to the sequences it builds -------------------------
+import re as _re
+
+_SEQ_OPS = _re.compile(
+    r"::(insert|reverse|rev|sort\w*|swap\w*|rotate_\w+|remove|retain|dedup\w*|truncate|drain|split_off|pop|pop_front|push_front|last|first|nth|skip|take|step_by|filter|filter_map|skip_while|take_while|chain|cycle|zip|rsplit\w*|next_back|rfold|rfind|max\w*|min\w*)$"
+)
+_SEQ_TYPES = ("std::vec::Vec", "std::collections::VecDeque", "crate::syn::punctuated::Punctuated", "core::slice", "std::slice", "std::iter::Iterator", "std::iter::DoubleEndedIterator")
+# confirmed by reading: (function, callee) -> (max sites, reason)
+SEQ_OP_TABLE = {
+    ("<crate::CompoundPath as crate::syn::parse::Parse>::parse", "crate::syn::punctuated::Punctuated::pop"): (3, "splits `a::b::Type::Variant` into prefix / type / variant from the end of the path; what is popped is kept"),
+    ("crate::make_compound_modifications_to_path", "std::iter::Iterator::last"): (1, "renames only the last path segment (`Foo` -> `_Inner_compound_Foo`)"),
+}
+
+
+def check_sequence_ops(ctx, mac, rule):
+    """The order of clauses, arms, or-pattern alternatives, patterns and arguments in the expansion is the
+    order in which the parsers *collected* them: every `impl Parse` accumulates with push / push_value /
+    parse_terminated and every emitter iterates forwards.  So in the whole macro crate no sequence is ever
+    reordered, truncated or filtered: any call of a reordering / dropping operation on a Vec, Punctuated, slice
+    or iterator that is not in the confirmed table is reported (MIR call census, resolved callees; hash sets
+    are exempt - they carry no order)."""
+    seen = {}
+    nfn = 0
+    appends = 0
+    for p, fn in sorted(mac.fns.items()):
+        mir = fn.get("mir")
+        if not mir or fn.get("in_test_mod"):
+            continue
+        nfn += 1
+        for b in mir["blocks"]:
+            t = b.get("term") or {}
+            if t.get("k") != "call" or not isinstance(t.get("callee"), str):
+                continue
+            c = _re.sub(r"::<[^<>]*(<[^<>]*>[^<>]*)*>", "", t["callee"])
+            if c.endswith(("Vec::push", "Punctuated::push", "Punctuated::push_value")):
+                appends += 1
+            if not _SEQ_OPS.search(c) or not c.startswith(_SEQ_TYPES) and not any(s in c for s in ("Vec::", "Punctuated::", "VecDeque::", "slice")):
+                continue
+            seen.setdefault((p, c), []).append(":".join(t.get("sp", "").split(":")[:2]))
+    for (p, c), sites in sorted(seen.items()):
+        ctx.fn_seen(p)
+        lim = SEQ_OP_TABLE.get((p, c))
+        if lim is None:
+            ctx.violation(rule, "%s|%s" % (p, c.split("::")[-1]), sites[0], "the macro front end calls `%s`, which can reorder or drop collected clauses / arms / patterns; only appends and forward iteration are confirmed (source order = expansion order)" % c)
+        elif len(sites) > lim[0]:
+            ctx.violation(rule, "%s|%s|more-sites" % (p, c.split("::")[-1]), sites[-1], "%d sites of `%s` where %d were confirmed (%s)" % (len(sites), c, lim[0], lim[1]))
+        else:
+            ctx.ok(rule, "%s|%s" % (p, c.split("::")[-1]), sites[0], "confirmed exception: %s" % lim[1])
+    ctx.count("macro_functions_censused", nfn)
+    ctx.floor(rule, nfn, 60, "macro-crate functions with MIR")
+    ctx.floor(rule, appends, 10, "append sites (push / push_value) in the macro crate")
